@@ -261,10 +261,18 @@ func BuildTypeCtxByIndex(typeType *parser.TypeTypeContext, typeCtx *parser.Class
 }
 
 func (s *JavaFullListener) EnterLocalVariableDeclaration(ctx *parser.LocalVariableDeclarationContext) {
-	typ := ctx.GetChild(0).(antlr.ParseTree).GetText()
-	if ctx.GetChild(1) != nil {
-		if ctx.GetChild(1).GetChild(0) != nil && ctx.GetChild(1).GetChild(0).GetChild(0) != nil {
-			variableName := ctx.GetChild(1).GetChild(0).GetChild(0).(antlr.ParseTree).GetText()
+	// `final T x` / `@Ann T x`: the type follows the variable modifiers
+	first := 0
+	for first < ctx.GetChildCount()-1 {
+		if _, isModifier := ctx.GetChild(first).(*parser.VariableModifierContext); !isModifier {
+			break
+		}
+		first++
+	}
+	typ := ctx.GetChild(first).(antlr.ParseTree).GetText()
+	if ctx.GetChild(first+1) != nil {
+		if ctx.GetChild(first+1).GetChild(0) != nil && ctx.GetChild(first+1).GetChild(0).GetChild(0) != nil {
+			variableName := ctx.GetChild(first+1).GetChild(0).GetChild(0).(antlr.ParseTree).GetText()
 			localVars[variableName] = typ
 		}
 	}
